@@ -110,6 +110,7 @@ public:
     void store(T v, ::std::memory_order mo = ::std::memory_order_seq_cst) noexcept {
         vs_atomic_point(this, 0);
         a_.store(v, mo);
+        vs_atomic_written();
     }
     operator T() const noexcept { return load(); }
     T operator=(T v) noexcept {
@@ -118,43 +119,61 @@ public:
     }
     T exchange(T v, ::std::memory_order mo = ::std::memory_order_seq_cst) noexcept {
         vs_atomic_point(this, 0);
-        return a_.exchange(v, mo);
+        T r = a_.exchange(v, mo);
+        vs_atomic_written();
+        return r;
     }
     bool compare_exchange_strong(T& e, T d, ::std::memory_order mo = ::std::memory_order_seq_cst) noexcept {
         vs_atomic_point(this, 0);
-        return a_.compare_exchange_strong(e, d, mo);
+        bool r = a_.compare_exchange_strong(e, d, mo);
+        vs_atomic_written();
+        return r;
     }
     bool compare_exchange_strong(T& e, T d, ::std::memory_order s, ::std::memory_order f) noexcept {
         vs_atomic_point(this, 0);
-        return a_.compare_exchange_strong(e, d, s, f);
+        bool r = a_.compare_exchange_strong(e, d, s, f);
+        vs_atomic_written();
+        return r;
     }
     bool compare_exchange_weak(T& e, T d, ::std::memory_order mo = ::std::memory_order_seq_cst) noexcept {
         vs_atomic_point(this, 0);
-        return a_.compare_exchange_strong(e, d, mo);  // no spurious failures under the scheduler
+        bool r = a_.compare_exchange_strong(e, d, mo);
+        vs_atomic_written();
+        return r;  // no spurious failures under the scheduler
     }
     bool compare_exchange_weak(T& e, T d, ::std::memory_order s, ::std::memory_order f) noexcept {
         vs_atomic_point(this, 0);
-        return a_.compare_exchange_strong(e, d, s, f);
+        bool r = a_.compare_exchange_strong(e, d, s, f);
+        vs_atomic_written();
+        return r;
     }
     template <class U = T>
     T fetch_add(U d, ::std::memory_order mo = ::std::memory_order_seq_cst) noexcept {
         vs_atomic_point(this, 0);
-        return a_.fetch_add(d, mo);
+        T r = a_.fetch_add(d, mo);
+        vs_atomic_written();
+        return r;
     }
     template <class U = T>
     T fetch_sub(U d, ::std::memory_order mo = ::std::memory_order_seq_cst) noexcept {
         vs_atomic_point(this, 0);
-        return a_.fetch_sub(d, mo);
+        T r = a_.fetch_sub(d, mo);
+        vs_atomic_written();
+        return r;
     }
     template <class U = T>
     T fetch_and(U d, ::std::memory_order mo = ::std::memory_order_seq_cst) noexcept {
         vs_atomic_point(this, 0);
-        return a_.fetch_and(d, mo);
+        T r = a_.fetch_and(d, mo);
+        vs_atomic_written();
+        return r;
     }
     template <class U = T>
     T fetch_or(U d, ::std::memory_order mo = ::std::memory_order_seq_cst) noexcept {
         vs_atomic_point(this, 0);
-        return a_.fetch_or(d, mo);
+        T r = a_.fetch_or(d, mo);
+        vs_atomic_written();
+        return r;
     }
     T operator++() noexcept { return fetch_add(T(1)) + T(1); }
     T operator++(int) noexcept { return fetch_add(T(1)); }
